@@ -15,6 +15,21 @@ CHECKS = {
  "C15": dict(cat="exploration", ref="6/C15", tech="exception-class and CPU-time monitor at the boundary of convert() and decb_to_b09.start() under grammar-directed mutational workloads",
    text="every outcome of the real entry points is classified as converted / documented refusal / internal exception (root cause unwrapped from parsimonious VisitationError) and timed (process CPU); inputs are mutated generated programs, extreme literals, deep nesting, bad option values and command lines with legal file stems",
    note="documented refusal classes are listed in the evidence assumptions; hang = more than 20 s CPU for one input"),
+ "C12": dict(cat="exploration", ref="6/C12", tech="hash-seed sweep in fresh interpreter processes + in-process repetition with shuffled neighbours and reversed history; SHA-256 equality monitor",
+   text="the same (text, options) / (image file, options) is executed by the real code under 8 (quick) or 32 (thorough) PYTHONHASHSEED values in fresh processes, three times in one process between other conversions, and in reversed order; any two differing outputs are a violation, diagnosed by the first differing line",
+   note="PYTHONHASHSEED is the only schedule nondeterminism of this single-threaded pure-Python code; programs are biased to set/dict-ordered constructs"),
+ "C16": dict(cat="exploration", ref="6/C16", tech="reference encoder -> real decoder -> independent PNM/PNG reader; pixel-exact comparison with a reference rendering",
+   text="every layout variant of every uncompressed format is produced by a reference encoder, decoded by the real tool, and each pixel compared; the 64 shifted palettes put every colour code into every palette slot",
+   note="trusted base: colour function and layouts in vlib/img/model.py; MGE c2r table and MAX artifact filter are snapshots (changes detected only)"),
+ "C17": dict(cat="exploration", ref="6/C17", tech="nondeterministic reference compressors with adversarial presets -> real decoder -> pixel-exact comparison; direct contract on unsquash()",
+   text="each image is compressed many ways (run splitting, literal vs repeat, escape use, copy-left/copy-up) and must decode to the same pixels; the RAT defect is attributed only when the 'low nibble & 7' hypothesis explains the whole picture",
+   note="reference encoders are self-checked by reference expansion; layouts in DESIGN.md Appendix C"),
+ "C18": dict(cat="exploration", ref="6/C18", tech="conservation monitor (samples written = samples announced by the parsed header) over geometry/option sweeps; skip-vs-prefix-removal and pipes-vs-files metamorphic checks with real subprocesses",
+   text="the produced bytes are parsed by an independent reader; size must equal what format/options/header fields dictate and the payload must be complete",
+   note="well-formed input carries ceil(width/pixels-per-byte) bytes per row"),
+ "C19": dict(cat="fault_enumeration", ref="6/C19", tech="fault enumeration (all prefixes, control-byte corruptions, appended garbage, random strings) under the C18 conservation monitor and an exit-status monitor",
+   text="every prefix of small valid files of each format and every listed corruption is decoded by the real tool; verdict failed / complete / incomplete, the last being a violation; CPU per case bounded",
+   note="failure = exception, non-zero exit, or MAX's documented False result with the output removed"),
 }
 
 def main():
